@@ -321,12 +321,12 @@ pub fn parse_line(line: &str) -> LineInfo {
                 new_round = true;
                 semi_ok = false;
                 continue;
-            } else if !met_parenthesis && sep_second.is_empty() && sep.is_empty() {
+            } else if !met_parenthesis && sep_second.is_empty() && (sep.is_empty() || sep == "\\") {
                 if sep.is_empty() && !sep_made.is_empty() {
                     result.push((sep_made.to_string(), token));
                     sep_made = String::new();
                 } else {
-                    result.push((String::from(""), token));
+                    result.push((sep.to_string(), token));
                 }
                 result.push((String::from(""), "|".to_string()));
                 sep = String::new();
